@@ -28,13 +28,23 @@ def native_calls(jobs, timeout=120):
     env = dict(os.environ)
     env['PYTHONPATH'] = '%s:%s' % (REPO, VERIF)
     env['PAMQP_VERIF'] = '1'
-    p = subprocess.run([VENV_PY, '-W', 'ignore', '-m', 'pyvc.replay_runner'],
-                       input='\n'.join(json.dumps(j) for j in jobs) + '\n',
-                       capture_output=True, text=True, env=env, timeout=timeout, cwd=VERIF)
-    outs = [json.loads(l) for l in p.stdout.splitlines() if l.strip()]
+    try:
+        p = subprocess.run([VENV_PY, '-W', 'ignore', '-m', 'pyvc.replay_runner'],
+                           input='\n'.join(json.dumps(j) for j in jobs) + '\n',
+                           capture_output=True, text=True, env=env, timeout=timeout, cwd=VERIF)
+        stdout, stderr = p.stdout, p.stderr
+    except subprocess.TimeoutExpired as exc:
+        stdout = exc.stdout.decode() if isinstance(exc.stdout, bytes) else (exc.stdout or '')
+        stderr = 'runner timed out after %ss' % timeout
+    outs = []
+    for l in stdout.splitlines():
+        try:
+            outs.append(json.loads(l))
+        except ValueError:
+            break
     if len(outs) != len(jobs):
         # a hard crash / hang of the runner on job len(outs)
-        outs.append({'outcome': 'runner-died', 'stderr': p.stderr[-400:]})
+        outs.append({'outcome': 'runner-died', 'stderr': stderr[-400:]})
         while len(outs) < len(jobs):
             outs.append({'outcome': 'not-run'})
     return outs
